@@ -45,6 +45,7 @@ class FunctionCtx(object):
         self.contract = contract
         self.calls = Calls(self)
         self.obls = []
+        self.aliases = {}
         self.counters = {}
         self.types = dict(contract.get("types", {}))
         self.notes = []
@@ -342,6 +343,11 @@ class Executor(object):
             raise Outside("assignment target %s" % type(tgt).__name__)
 
     def st_Assign(self, s, st):
+        # `append = res.extend` : alias of a bound mutating method of a local container
+        if (isinstance(s.value, ast.Attribute) and s.value.attr in ("append", "extend") and isinstance(s.value.value, ast.Name)
+                and len(s.targets) == 1 and isinstance(s.targets[0], ast.Name) and s.value.value.id in st.env):
+            self.fx.aliases[s.targets[0].id] = (s.value.value.id, s.value.attr)
+            return [Outcome("normal", st)]
         val = self.ev.ev(s.value, st)
         for tgt in s.targets:
             self.assign(tgt, val, st, s)
@@ -673,7 +679,7 @@ class Executor(object):
             if decl is None:
                 raise AttachError("parameter %r has no declared type" % p)
             t = fx.parse_type(decl)
-            st.env[p] = SV(z3.Const("arg_" + p, t.sort(cx)), t)
+            st.env[p] = SV(z3.Const("arg_" + p, t.sort(cx)), t, c.get("param_meta", {}).get(p))
         if args.kwarg and c.get("allow_kwargs"):
             t = fx.parse_type(fx.types[args.kwarg.arg])
             st.env[args.kwarg.arg] = SV(z3.Const("arg_" + args.kwarg.arg, t.sort(cx)), t)
